@@ -288,6 +288,16 @@ func runC19(c *Ctx) {
 	p := c.P
 	la := computeLocksets(p)
 
+	// R8 the batch writer keeps no reference to the caller's payload: the message it queues is sent later, by the
+	// flush goroutine or another writer, while the caller is free to reuse its buffer as soon as WriteTo returned
+	if enq := p.Func("udp", "BatchConn", "enqueueMessage"); enq != nil && len(enq.Params) > 1 {
+		o8 := c.Obl("R8", fname(enq), "the batch writer copies the caller's payload into the queued message and retains no part of the caller's slice (the batch is flushed later from another goroutine)", 1)
+		o8.Site(enq.Pos(), "payload parameter %s", enq.Params[1].Name())
+		for _, sk := range retainedBy(p, enq, 1, nil) {
+			o8.Fail(sk.In.Pos(), "the queued batch message keeps a reference to the caller's buffer (%s): the flush reads it after WriteTo returned, unordered with the caller's next write to that buffer", sk.Why)
+		}
+	}
+
 	// struct types of the concurrent packages
 	mutexFields := map[string][]string{} // T -> names of mutex fields
 	allStructs := map[string]*types.Struct{}
